@@ -246,6 +246,24 @@ func (h *c12Harness) apply(e c12Event) string {
 		case "return":
 			in.release <- in.ctx.Err()
 		}
+	case "signals":
+		// A transferring receiver sends more signaling messages than its transfer takes (the
+		// host's single envelope loop hands them over; it must never wait for a transfer to
+		// read them - everything after, leaves and accepts included, would wait with it).
+		doneSig := make(chan struct{})
+		go func() {
+			defer close(doneSig)
+			for i := 0; i < 70; i++ {
+				env, _ := protocol.NewEnvelope(protocol.TypeIceCandidate, protocol.NewMsgID(), protocol.IceCandidate{Candidate: fmt.Sprintf("127.0.0.1:%d", 1000+i)})
+				env.From = e.Peer
+				h.s.handleEnvelope(ctx, env)
+			}
+		}()
+		select {
+		case <-doneSig:
+		case <-time.After(8 * time.Second):
+			return "envelope-loop-blocked"
+		}
 	case "cleanup":
 		h.mu.Lock()
 		h.now = h.now.Add(e.Adv)
@@ -443,8 +461,11 @@ func c12Run(maxRecv int, evs []c12Event) (sig, detail string, stats map[string]i
 	defer h.close()
 	var done []string
 	for _, e := range evs {
-		if h.apply(e) == "skip" {
+		switch h.apply(e) {
+		case "skip":
 			continue
+		case "envelope-loop-blocked":
+			return "envelope-loop-blocked", fmt.Sprintf("70 signaling messages from receiver %s: the host's envelope handler did not come back within 8 s (it waits for a transfer to read them) | max-receivers=%d after events: %s %s", e.Peer, maxRecv, strings.Join(done, " "), e), stats
 		}
 		done = append(done, e.String())
 		_, alive := h.live()
@@ -470,7 +491,7 @@ func c12Run(maxRecv int, evs []c12Event) (sig, detail string, stats map[string]i
 func genC12Events(t *rapid.T, n int, npeers int) []c12Event {
 	var evs []c12Event
 	for i := 0; i < n; i++ {
-		k := rapid.SampledFrom([]string{"join", "accept", "accept", "accept", "leave", "success", "failure", "failure-reaccept", "return", "return", "cleanup"}).Draw(t, fmt.Sprintf("ev%d", i))
+		k := rapid.SampledFrom([]string{"join", "accept", "accept", "accept", "leave", "success", "failure", "failure-reaccept", "return", "return", "cleanup", "signals"}).Draw(t, fmt.Sprintf("ev%d", i))
 		e := c12Event{Kind: k, Peer: rapid.SampledFrom(c12Peers[:npeers]).Draw(t, fmt.Sprintf("peer%d", i)), Inst: rapid.IntRange(0, 3).Draw(t, fmt.Sprintf("inst%d", i))}
 		if k == "cleanup" {
 			e.Adv = rapid.SampledFrom([]time.Duration{time.Minute, 6 * time.Minute, 6 * time.Minute, 11 * time.Minute}).Draw(t, fmt.Sprintf("adv%d", i))
